@@ -602,6 +602,18 @@ def cases(tier, rng):
             yield {"op": "construct", "type": tname, "n": 2, "bad": {"col": j, "what": "len"}}
             if k in ("int", "float", "opt", "dna", "strand"):
                 yield {"op": "construct", "type": tname, "n": 2, "bad": {"col": j, "what": "content"}}
+    # 1g. fresh, un-materialised views handed straight to every operation: t[[2,0,1]], t[mask], t[1:], t[::-1] then each single op
+    vtypes = [n for n in names if n.startswith("D_")] + [n for n in ("Interval", "Bed6", "SequenceEntry", "BedGraph") if n in names]
+    fi = 0
+    for tname in vtypes:
+        kinds = m["classes"][tname][1]
+        cols = [[10 + 3 * i for i in range(3)] for _ in kinds]
+        for first, n2 in (({"k": "take", "ix": [2, 0, 1], "py": ["list"]}, 3), ({"k": "mask", "m": [True, False, True]}, 2),
+                          ({"k": "take", "ix": [1, 2], "py": ["slice", 1, None, None]}, 2),
+                          ({"k": "take", "ix": [2, 1, 0], "py": ["slice", None, None, -1]}, 3)):
+            for op in _single_ops(kinds, n2, rng):
+                fi += 1
+                yield {"op": "program", "type": tname, "cols": cols, "ops": [first, op], "final": FINALS[fi % len(FINALS)], "fresh": True}
     # 1b. typed construction: every field kind x every argument form
     for k in KIND_ORDER:
         for f in FORM_ORDER:
@@ -690,7 +702,7 @@ def cases(tier, rng):
         tname = rng.choice(names if rng.random() < 0.5 else [n for n in names if n.startswith("D_")])
         kinds = m["classes"][tname][1]
         cols, ops = _random_program(kinds, rng, 12)
-        c = {"op": "program", "type": tname, "cols": cols, "ops": ops, "final": rng.choice(FINALS)}
+        c = {"op": "program", "type": tname, "cols": cols, "ops": ops, "final": rng.choice(FINALS), "fresh": rng.random() < 0.5}
         if _sort_unambiguous(c):
             yield c
 
@@ -762,15 +774,16 @@ def impl(c):
         except Exception as e:
             return {"err": "harness-construct:" + type(e).__name__}
         unchanged = True
+        fresh = bool(c.get("fresh"))       # fresh: intermediate results go straight into the next operation, never read in between
         for i, op in enumerate(c["ops"]):
-            before = _rows_tolist(t, kinds)
+            before = None if fresh else _rows_tolist(t, kinds)
             old_kinds = list(kinds)
             try:
                 t2, kinds, names = _apply_impl(m, t, op, kinds, names)
                 lens = {len(getattr(t2, f.name)) for f in dataclasses.fields(t2)}
             except Exception as e:
                 return {"err": "raise", "at": op["k"], "exc": type(e).__name__}
-            if _rows_tolist(t, old_kinds) != before:
+            if not fresh and _rows_tolist(t, old_kinds) != before:
                 unchanged = False
             if len(lens) != 1:
                 return {"rows": None, "unequal_lengths": sorted(lens)}
@@ -984,6 +997,31 @@ def agree(c, got, exp):
     if "err" in exp or c["op"] not in ("program",):
         return True
     return got.get("unchanged") is True and all(v is True for v in got["final"].values())
+
+
+def live_cases(tier, rng):
+    """programs for the history / aliasing probe: a result table must still read the same after a LATER program ran"""
+    m = _mods()
+    names = [n for n in type_names()]
+    out = []
+    while len(out) < (1200 if tier in ("thorough", "widen") else 300):
+        tname = rng.choice(names)
+        cols, ops = _random_program(m["classes"][tname][1], rng, 8)
+        c = {"op": "program", "type": tname, "cols": cols, "ops": ops, "final": "tolist", "fresh": True}
+        if _sort_unambiguous(c) and "err" not in oracle(c):
+            out.append(c)
+    return out
+
+
+def impl_live(c):
+    m = _mods()
+    cls, kinds, names = m["classes"][c["type"]]
+    kinds, names = list(kinds), list(names)
+    t = _table(m, c["type"], c["cols"])
+    for op in c["ops"]:
+        t, kinds, names = _apply_impl(m, t, op, kinds, names)
+    final_kinds = list(kinds)
+    return t, (lambda obj: {"rows": _rows_tolist(obj, final_kinds), "width": len(final_kinds), "unchanged": True, "final": {}})
 
 
 def agree_spec(c, s, exp):
